@@ -109,6 +109,9 @@ C15(op, A, B) ==
      /\ OneHead(B) /\ Root(B).a.head = "F"
      /\ \A x \in B.nodes : x.a.head \in {"T", "F"}) \cup
    F("C15.structure_unchanged", Shape(A) = Shape(B) /\ Ids(A) = Ids(B)) \cup
+   \* C05 is stated for "head marking; boyd_split; raising": a marking without exactly one head per
+   \* constituent already breaks that pipeline (boyd_split has no head block to keep)
+   F("C05.head_marking", OneHead(B)) \cup
    (IF n = "negra_mark_heads" THEN
       F("C15.negra.exact",
         \A c \in CNodes(B) : LET ks == KidsSeq(B, c) IN ks[NegraHeadIdx(ks)].a.head = "T")
@@ -146,7 +149,7 @@ C05(op, A, B, mem) ==
 
 (* ---- C14 ---- *)
 NearestOld(A, B, x) ==    \* the lowest ancestor of x in B that existed in A
-  LET S == {z \in Ancs(B, x) : z.a.id \in Ids(A)} IN Lowest(S)
+  LET S == {z \in Ancs(B, x) : z.a.id \in Ids(A)} IN IF S = {} THEN x ELSE Lowest(S)
 C14(op, A, B, mem) ==
   LET n == op.name IN
   IF n = "binarize" THEN
